@@ -1780,7 +1780,15 @@ class NodeRequire:
         if not modulename:
             modulename = name
         environment.pushModuleStack(moduleidentifier, self.pos)
+        try:
+            moduleEnv = self.loadModule(
+                environment, modules, moduleidentifier, modulefile
+            )
+        finally:
+            environment.popModuleStack()
+        return self.bindModule(environment, moduleEnv, modulename)
 
+    def loadModule(self, environment, modules, moduleidentifier, modulefile):
         # lookup or read module
         moduleEnv = None
         if moduleidentifier in modules:
@@ -1823,8 +1831,9 @@ class NodeRequire:
             node = ckl.parser.parse_script(modulesrc, "mod:"+modulefile[0:-4])
             node.evaluate(moduleEnv)
             modules[moduleidentifier] = moduleEnv
-        environment.popModuleStack()
+        return moduleEnv
 
+    def bindModule(self, environment, moduleEnv, modulename):
         # bind module or contents of module
         if self.unqualified:
             for name in moduleEnv.getLocalSymbols():
